@@ -398,7 +398,7 @@ func c19Run(f []string) string {
 
 var c19BinOps = []string{"+", "-", "*", "/", "^", "%", "<<", ">>", "&", "|", "<", "<=", ">", ">=", "==", "&&", "||"}
 var c19Funcs = []string{"abs", "sqrt", "floor", "ceil", "round", "sin", "cos", "tan", "asin", "acos", "atan", "exp", "exp2", "log", "log10", "log2"}
-var c19ExactFuncs = []string{"abs", "sqrt", "floor", "ceil", "round", "log", "log10", "log2"} // the functions the model computes
+var c19ExactFuncs = []string{"abs", "sqrt", "floor", "ceil", "round", "log", "log10", "log2", "sin", "cos", "tan", "asin", "acos", "atan", "exp2"} // the functions the model computes (all but exp)
 var c19Names = []string{"x", "y", "abc", "n1", "Val", "e", "sin"}
 var c19Lits = []string{"0", "1", "2", "3", "4", "7", "10", "64", "63", "100", "0.5", "2.5", ".25", "5.", "1e3", "1E2", "0.001",
 	"0x10", "0XfF", "0b101", "0B11", "0o17", "017", "08", "9223372036854775807", "9223372036854775808", "18446744073709551616",
